@@ -210,6 +210,40 @@ pub fn run(tier: Tier, seed: u64) -> i32 {
     });
     total.merge(st);
 
+    // part 1c (thorough): five operands, four operators, two operands with unary prefixes
+    if tier == Tier::Thorough {
+        let st = par_range("1c: chains of five operands over all 16^4 operator quadruples (plain, and with '-' on the second and '~' on the fourth operand) x valuations", 65536 * vals.len() as u64, &deadline, |idx, st| {
+            let o = idx % 65536;
+            let ops = [BINOPS[(o % 16) as usize], BINOPS[(o / 16 % 16) as usize], BINOPS[(o / 256 % 16) as usize], BINOPS[(o / 4096) as usize]];
+            let v = vals[(idx / 65536) as usize];
+            let mut exprs = vec![];
+            for variant in 0..2 {
+                let mut toks = vec![];
+                let mut operands = vec![];
+                for i in 0..5 {
+                    let pre: &[UnOp] = if variant == 1 && i == 1 { &[UnOp::Neg] } else if variant == 1 && i == 3 { &[UnOp::Inv] } else { &[] };
+                    let (t, e) = operand(i % 4, pre);
+                    toks.extend(t);
+                    operands.push(e);
+                    if i < 4 {
+                        toks.push(ops[i].text().to_string());
+                    }
+                }
+                exprs.push(Expr::Raw(toks, Box::new(climb(operands, ops.to_vec()))));
+            }
+            exprs.retain(|e| ok_under(e, &v));
+            if exprs.is_empty() {
+                st.out_of_scope += 1;
+                return;
+            }
+            st.nontrivial += exprs.len() as u64;
+            st.witness_n("flat_chain_of_five", exprs.len() as u64);
+            let vv = vec![v; exprs.len()];
+            batch(st, (5 << 32) + idx, &exprs, &vv, "part 1c: five-operand chain");
+        });
+        total.merge(st);
+    }
+
     // part 2: operator table over the boundary set, operands read from the device
     let ov = operand_values();
     let st = par_range("2: 16 binary operators x V^2 and 3 unary operators x V (V = 19 boundary operands)", 19, &deadline, |idx, st| {
